@@ -118,124 +118,141 @@ fn ip_hex(ip: IpAddr) -> String {
 pub fn run(out: &mut impl Write, seed: u64, cases: usize, _replay: &str) {
     let mut master = Sm::new(seed);
     for case in 0..cases {
-        let mut r = master.fork(case as u64);
-        let boundary_case = case % 4 == 3; // C18: worst-case scrape around the reply-buffer boundary, default limits
-        let socket_workers = r.pick(&[1usize, 2, 3]);
-        let swarm_workers = r.pick(&[1usize, 2, 3]);
-        let keep_alive = r.chance(70);
-        // C03: every third history runs behind a (simulated) reverse proxy - few upstream connections carry the
-        // requests of many clients, each named by the last address of the last X-Forwarded-For header of ITS request
-        let proxy = !boundary_case && case % 3 == 1;
-        let keep_alive = keep_alive || proxy;   // a proxy keeps its upstream connections open
-        let vips: Vec<IpAddr> = ["10.0.0.1", "10.0.0.2", "192.0.2.7", "2001:db8::5", "2001:db8::6", "::ffff:10.0.0.9"].iter().map(|s| s.parse().unwrap()).collect();
-        let (max_peers, max_scrape) = if boundary_case { (50usize, 100usize) } else { (r.pick(&[1usize, 2, 3, 50]), r.pick(&[2usize, 3, 100])) };
-        let args = vec![
-            format!("socket_workers={}", socket_workers), format!("swarm_workers={}", swarm_workers),
-            format!("keep_alive={}", keep_alive), format!("max_peers={}", max_peers), format!("max_scrape_torrents={}", max_scrape),
-            format!("proxy={}", proxy),
-        ];
-        let Some(mut server) = Server::start("http", &args) else {
-            writeln!(out, "cfg http {} {}\nnet START-FAILED", max_peers, max_scrape).unwrap();
-            continue;
-        };
-        writeln!(out, "cfg http {} {}", max_peers, max_scrape).unwrap();
-        writeln!(out, "net socket_workers={} swarm_workers={} keep_alive={} boundary={} proxy={}", socket_workers, swarm_workers, keep_alive, boundary_case, proxy).unwrap();
-        writeln!(out, "new").unwrap();
-        // alnum hashes (can be written raw); first byte spreads them over the swarm workers
-        let hashes: Vec<[u8; 20]> = (0..6u8).map(|i| { let mut h = [b'h'; 20]; h[0] = b'a' + i; h[19] = b'0' + i; h }).collect();
-        let srcs: Vec<IpAddr> = vec!["127.0.0.1".parse().unwrap(), "127.0.0.2".parse().unwrap(), "127.0.0.3".parse().unwrap(), "::1".parse().unwrap()];
-        let mut conns: Vec<Conn> = srcs.iter().map(|s| Conn { stream: None, src: *s, requests_on_stream: 0 }).collect();
-        let nops = if boundary_case { 6 } else { 12 + r.below(20) as usize };
-        for opi in 0..nops {
-            let ci = r.below(conns.len() as u64) as usize;
-            if conns[ci].stream.is_none() || (!keep_alive && conns[ci].requests_on_stream > 0) {
-                conns[ci].stream = connect(conns[ci].src, server.port);
-                conns[ci].requests_on_stream = 0;
-            }
-            // the peer as the tracker must see it: the TCP source, or the client the proxy names
-            let vip = r.pick(&vips);
-            let peer_ip: IpAddr = if proxy { aquatic_common::CanonicalSocketAddr::new(SocketAddr::new(vip, 1)).get().ip() } else { conns[ci].src };
-            let fam = if peer_ip.is_ipv4() { 4 } else { 6 };
-            let xff: Vec<u8> = if !proxy { Vec::new() } else {
-                match r.below(4) {
-                    0 => format!("X-Forwarded-For: {}\r\n", vip),
-                    1 => format!("X-Forwarded-For: 198.51.100.200, {}\r\n", vip),
-                    2 => format!("X-Forwarded-For: 203.0.113.9\r\nX-Forwarded-For: 2001:db8::99,  {}\r\n", vip),
-                    // (the header name is compared exactly as configured; a differently-cased name counts as absent, which
-                    // the tracker treats as an operator error and panics on - not part of these histories)
-                    _ => format!("X-Forwarded-For:   {} \r\n", vip),
-                }.into_bytes()
-            };
-            let is_scrape = boundary_case || r.chance(25);
-            let (line, bytes) = if is_scrape {
-                let hs: Vec<[u8; 20]> = if boundary_case {
-                    let n = [56usize, 57, 58, 60, 64, 30][opi % 6];
-                    (0..n).map(|i| { let mut h = [b'k'; 20]; h[0] = b'a' + (i % 3) as u8; h[18] = b'0' + (i / 10) as u8; h[19] = b'0' + (i % 10) as u8; h }).collect()
-                } else {
-                    (0..1 + r.below(5)).map(|_| r.pick(&hashes)).collect()
-                };
-                let l = format!("scr {} {}", fam, hs.iter().map(|h| hex(h)).collect::<Vec<_>>().join(","));
-                (l, request_bytes_scrape_raw(&hs))
-            } else {
-                let hash = r.pick(&hashes);
-                let port = 1000 + r.below(6) as u16;
-                let event = r.pick(&["empty", "empty", "started", "completed", "stopped"]);
-                let left = r.pick(&[0usize, 0, 1, 12345]);
-                let numwant: Option<usize> = r.pick(&[None, Some(0usize), Some(1), Some(2), Some(3), Some(100)]);
-                let mut pid = [b'-'; 20];
-                pid[19] = b'0' + r.below(4) as u8;
-                let rq = Request::Announce(AnnounceRequest {
-                    info_hash: InfoHash(hash), peer_id: PeerId(pid), port, bytes_uploaded: 0, bytes_downloaded: 0, bytes_left: left,
-                    event: match event { "started" => AnnounceEvent::Started, "completed" => AnnounceEvent::Completed, "stopped" => AnnounceEvent::Stopped, _ => AnnounceEvent::Empty },
-                    numwant, key: None,
-                });
-                let mut b = Vec::new();
-                rq.write(&mut b, b"").unwrap();
-                let l = format!("ann {} {} {} {} {} {} {} 4000000000 {}", fam, hex(&hash), ip_hex(peer_ip), port,
-                    if event == "empty" { "none" } else { event }, left, numwant.map(|n| n as i64).unwrap_or(-1), hex(&pid));
-                (l, b)
-            };
-            // the proxy's header goes in front of the blank line that ends the request
-            let bytes = if xff.is_empty() { bytes } else {
-                let mut b = bytes[..bytes.len() - 2].to_vec();
-                b.extend_from_slice(&xff);
-                b.extend_from_slice(b"\r\n");
-                b
-            };
-            let reply = match conns[ci].stream.as_mut() {
-                None => Reply::None("connect-failed".into()),
-                Some(s) => { if send_split(s, &bytes, &mut r) { read_response(s) } else { Reply::None("write-failed".into()) } }
-            };
-            conns[ci].requests_on_stream += 1;
-            match reply {
-                Reply::None(why) => {
-                    conns[ci].stream = None;
-                    writeln!(out, "{} => NOREPLY {}", line, why).unwrap();
-                }
-                Reply::Ok { body, frame, head } => {
-                    let frame = format!("{} H:{}:{}", frame, hex(&head), body.len());
-                    if !keep_alive { conns[ci].stream = None; }
-                    match Response::parse_bytes(&body) {
-                        Ok(Response::Announce(a)) => {
-                            let mut peers: Vec<String> = a.peers.0.iter().map(|p| format!("{}:{}", hex(&p.ip_address.octets()), p.port)).collect();
-                            peers.extend(a.peers6.0.iter().map(|p| format!("{}:{}", hex(&p.ip_address.octets()), p.port)));
-                            let wrong = if fam == 4 { !a.peers6.0.is_empty() } else { !a.peers.0.is_empty() };
-                            writeln!(out, "{} => {} {} {} {}", line, a.complete, a.incomplete, if peers.is_empty() { "-".to_string() } else { peers.join(";") },
-                                if wrong { "WRONGFAMILY".to_string() } else { format!("F:{}", frame) }).unwrap();
+        // a case in which some answer never came is run again (up to three times in all) from the same random
+        // state: what the tracker does deterministically shows every time, a stall of the machine does not
+        let r0 = master.fork(case as u64);
+        let mut attempt = 0;
+        loop {
+            let timeouts_before = crate::net::timeouts();
+            let mut case_buf: Vec<u8> = Vec::new();
+            {
+                let out = &mut case_buf;
+                let mut r = r0.clone();
+                'case: {
+                        let boundary_case = case % 4 == 3; // C18: worst-case scrape around the reply-buffer boundary, default limits
+                        let socket_workers = r.pick(&[1usize, 2, 3]);
+                        let swarm_workers = r.pick(&[1usize, 2, 3]);
+                        let keep_alive = r.chance(70);
+                        // C03: every third history runs behind a (simulated) reverse proxy - few upstream connections carry the
+                        // requests of many clients, each named by the last address of the last X-Forwarded-For header of ITS request
+                        let proxy = !boundary_case && case % 3 == 1;
+                        let keep_alive = keep_alive || proxy;   // a proxy keeps its upstream connections open
+                        let vips: Vec<IpAddr> = ["10.0.0.1", "10.0.0.2", "192.0.2.7", "2001:db8::5", "2001:db8::6", "::ffff:10.0.0.9"].iter().map(|s| s.parse().unwrap()).collect();
+                        let (max_peers, max_scrape) = if boundary_case { (50usize, 100usize) } else { (r.pick(&[1usize, 2, 3, 50]), r.pick(&[2usize, 3, 100])) };
+                        let args = vec![
+                            format!("socket_workers={}", socket_workers), format!("swarm_workers={}", swarm_workers),
+                            format!("keep_alive={}", keep_alive), format!("max_peers={}", max_peers), format!("max_scrape_torrents={}", max_scrape),
+                            format!("proxy={}", proxy),
+                        ];
+                        let Some(mut server) = Server::start("http", &args) else {
+                    crate::net::note_timeout();
+                            writeln!(out, "cfg http {} {}\nnet START-FAILED", max_peers, max_scrape).unwrap();
+                            break 'case;
+                        };
+                        writeln!(out, "cfg http {} {}", max_peers, max_scrape).unwrap();
+                        writeln!(out, "net socket_workers={} swarm_workers={} keep_alive={} boundary={} proxy={}", socket_workers, swarm_workers, keep_alive, boundary_case, proxy).unwrap();
+                        writeln!(out, "new").unwrap();
+                        // alnum hashes (can be written raw); first byte spreads them over the swarm workers
+                        let hashes: Vec<[u8; 20]> = (0..6u8).map(|i| { let mut h = [b'h'; 20]; h[0] = b'a' + i; h[19] = b'0' + i; h }).collect();
+                        let srcs: Vec<IpAddr> = vec!["127.0.0.1".parse().unwrap(), "127.0.0.2".parse().unwrap(), "127.0.0.3".parse().unwrap(), "::1".parse().unwrap()];
+                        let mut conns: Vec<Conn> = srcs.iter().map(|s| Conn { stream: None, src: *s, requests_on_stream: 0 }).collect();
+                        let nops = if boundary_case { 6 } else { 12 + r.below(20) as usize };
+                        for opi in 0..nops {
+                            let ci = r.below(conns.len() as u64) as usize;
+                            if conns[ci].stream.is_none() || (!keep_alive && conns[ci].requests_on_stream > 0) {
+                                conns[ci].stream = connect(conns[ci].src, server.port);
+                                conns[ci].requests_on_stream = 0;
+                            }
+                            // the peer as the tracker must see it: the TCP source, or the client the proxy names
+                            let vip = r.pick(&vips);
+                            let peer_ip: IpAddr = if proxy { aquatic_common::CanonicalSocketAddr::new(SocketAddr::new(vip, 1)).get().ip() } else { conns[ci].src };
+                            let fam = if peer_ip.is_ipv4() { 4 } else { 6 };
+                            let xff: Vec<u8> = if !proxy { Vec::new() } else {
+                                match r.below(4) {
+                                    0 => format!("X-Forwarded-For: {}\r\n", vip),
+                                    1 => format!("X-Forwarded-For: 198.51.100.200, {}\r\n", vip),
+                                    2 => format!("X-Forwarded-For: 203.0.113.9\r\nX-Forwarded-For: 2001:db8::99,  {}\r\n", vip),
+                                    // (the header name is compared exactly as configured; a differently-cased name counts as absent, which
+                                    // the tracker treats as an operator error and panics on - not part of these histories)
+                                    _ => format!("X-Forwarded-For:   {} \r\n", vip),
+                                }.into_bytes()
+                            };
+                            let is_scrape = boundary_case || r.chance(25);
+                            let (line, bytes) = if is_scrape {
+                                let hs: Vec<[u8; 20]> = if boundary_case {
+                                    let n = [56usize, 57, 58, 60, 64, 30][opi % 6];
+                                    (0..n).map(|i| { let mut h = [b'k'; 20]; h[0] = b'a' + (i % 3) as u8; h[18] = b'0' + (i / 10) as u8; h[19] = b'0' + (i % 10) as u8; h }).collect()
+                                } else {
+                                    (0..1 + r.below(5)).map(|_| r.pick(&hashes)).collect()
+                                };
+                                let l = format!("scr {} {}", fam, hs.iter().map(|h| hex(h)).collect::<Vec<_>>().join(","));
+                                (l, request_bytes_scrape_raw(&hs))
+                            } else {
+                                let hash = r.pick(&hashes);
+                                let port = 1000 + r.below(6) as u16;
+                                let event = r.pick(&["empty", "empty", "started", "completed", "stopped"]);
+                                let left = r.pick(&[0usize, 0, 1, 12345]);
+                                let numwant: Option<usize> = r.pick(&[None, Some(0usize), Some(1), Some(2), Some(3), Some(100)]);
+                                let mut pid = [b'-'; 20];
+                                pid[19] = b'0' + r.below(4) as u8;
+                                let rq = Request::Announce(AnnounceRequest {
+                                    info_hash: InfoHash(hash), peer_id: PeerId(pid), port, bytes_uploaded: 0, bytes_downloaded: 0, bytes_left: left,
+                                    event: match event { "started" => AnnounceEvent::Started, "completed" => AnnounceEvent::Completed, "stopped" => AnnounceEvent::Stopped, _ => AnnounceEvent::Empty },
+                                    numwant, key: None,
+                                });
+                                let mut b = Vec::new();
+                                rq.write(&mut b, b"").unwrap();
+                                let l = format!("ann {} {} {} {} {} {} {} 4000000000 {}", fam, hex(&hash), ip_hex(peer_ip), port,
+                                    if event == "empty" { "none" } else { event }, left, numwant.map(|n| n as i64).unwrap_or(-1), hex(&pid));
+                                (l, b)
+                            };
+                            // the proxy's header goes in front of the blank line that ends the request
+                            let bytes = if xff.is_empty() { bytes } else {
+                                let mut b = bytes[..bytes.len() - 2].to_vec();
+                                b.extend_from_slice(&xff);
+                                b.extend_from_slice(b"\r\n");
+                                b
+                            };
+                            let reply = match conns[ci].stream.as_mut() {
+                                None => { crate::net::note_timeout(); Reply::None("connect-failed".into()) }
+                                Some(s) => { if send_split(s, &bytes, &mut r) { read_response(s) } else { crate::net::note_timeout(); Reply::None("write-failed".into()) } }
+                            };
+                            conns[ci].requests_on_stream += 1;
+                            match reply {
+                                Reply::None(why) => {
+                                    conns[ci].stream = None;
+                                    writeln!(out, "{} => NOREPLY {}", line, why).unwrap();
+                                }
+                                Reply::Ok { body, frame, head } => {
+                                    let frame = format!("{} H:{}:{}", frame, hex(&head), body.len());
+                                    if !keep_alive { conns[ci].stream = None; }
+                                    match Response::parse_bytes(&body) {
+                                        Ok(Response::Announce(a)) => {
+                                            let mut peers: Vec<String> = a.peers.0.iter().map(|p| format!("{}:{}", hex(&p.ip_address.octets()), p.port)).collect();
+                                            peers.extend(a.peers6.0.iter().map(|p| format!("{}:{}", hex(&p.ip_address.octets()), p.port)));
+                                            let wrong = if fam == 4 { !a.peers6.0.is_empty() } else { !a.peers.0.is_empty() };
+                                            writeln!(out, "{} => {} {} {} {}", line, a.complete, a.incomplete, if peers.is_empty() { "-".to_string() } else { peers.join(";") },
+                                                if wrong { "WRONGFAMILY".to_string() } else { format!("F:{}", frame) }).unwrap();
+                                        }
+                                        Ok(Response::Scrape(s)) => {
+                                            let v: Vec<String> = s.files.iter().map(|(h, st)| format!("{}={}:{}", hex(&h.0), st.complete, st.incomplete)).collect();
+                                            writeln!(out, "{} => {} F:{}", line, if v.is_empty() { "-".to_string() } else { v.join(",") }, frame).unwrap();
+                                        }
+                                        Ok(Response::Failure(f)) => writeln!(out, "{} => FAILURE {}", line, hex(f.failure_reason.as_bytes())).unwrap(),
+                                        Err(_) => writeln!(out, "{} => NOREPLY body-is-not-a-bencoded-reply-{}", line, hex(&body[..body.len().min(40)])).unwrap(),
+                                    }
+                                }
+                            }
                         }
-                        Ok(Response::Scrape(s)) => {
-                            let v: Vec<String> = s.files.iter().map(|(h, st)| format!("{}={}:{}", hex(&h.0), st.complete, st.incomplete)).collect();
-                            writeln!(out, "{} => {} F:{}", line, if v.is_empty() { "-".to_string() } else { v.join(",") }, frame).unwrap();
+                        if let Some(l) = server.exit_line(Duration::from_millis(0)) {
+                            writeln!(out, "net TRACKER-EXITED {}", l.replace(' ', "_")).unwrap();
                         }
-                        Ok(Response::Failure(f)) => writeln!(out, "{} => FAILURE {}", line, hex(f.failure_reason.as_bytes())).unwrap(),
-                        Err(_) => writeln!(out, "{} => NOREPLY body-is-not-a-bencoded-reply-{}", line, hex(&body[..body.len().min(40)])).unwrap(),
-                    }
+                        server.stop();
                 }
             }
+            if crate::net::timeouts() == timeouts_before || attempt >= 2 { out.write_all(&case_buf).unwrap(); break; }
+            crate::net::set_timeouts(timeouts_before);
+            attempt += 1;
         }
-        if let Some(l) = server.exit_line(Duration::from_millis(0)) {
-            writeln!(out, "net TRACKER-EXITED {}", l.replace(' ', "_")).unwrap();
-        }
-        server.stop();
     }
 }
